@@ -55,6 +55,11 @@ def plan(tier, seed):
                 continue
             cfgs.append(dict(sched=kind, table=[[c, 1] for c in range(ncls)], rate=8, flows=list(range(ncls)), sizes=[1],
                              N=ncls if ncls < 6 or not quick else 5, gaps=["S"], order=0, static=True))
+    # weights that sum to less than 1 (link shares); class ids that are not 0..n-1
+    cfgs.append(dict(sched="WFQ", table=[[0, 0.5], [1, 0.25]], rate=8, flows=[0, 1], sizes=[1, 2], N=n, gaps="G5", order=0, L=50))
+    cfgs.append(dict(sched="WFQ", table=[[0, 0.5], [1, 0.25], [2, 0.125]], rate=8, flows=[0, 1, 2], sizes=[1, 2], N=n, gaps="G3", order=0))
+    cfgs.append(dict(sched="WFQ", table=[[1, 1], [2, 2]], rate=8, flows=[1, 2], sizes=[1, 2], N=n, gaps="G5", order=0, L=50))
+    cfgs.append(dict(sched="VC", table=[[1, 1], [2, 2]], rate=8, flows=[1, 2], sizes=[1, 2], N=n, gaps="G5", order=0, L=50))
     # a second live scheduler of the same kind with other weights / vticks in the same program
     cfgs.append(dict(sched="WFQ", table=[[0, 1], [1, 2]], rate=8, flows=[0, 1], sizes=[1, 2], N=n, gaps="G3", order=0, twin=1))
     cfgs.append(dict(sched="VC", table=[[0, 1], [1, 2]], rate=8, flows=[0, 1], sizes=[1, 2], N=n, gaps="G3", order=0, twin=1))
